@@ -79,6 +79,7 @@ def squeeze (a : Arr α) (axes : Option (List Int)) : Res (Arr α) :=
   | some axes =>
     let ax := (sortNat (axes.map (normalizeAxis a.ndim))).reverse
     if ax.any (fun x => decide (x ≥ a.ndim)) then .err .AxisOutOfBounds else
+    if ¬ ax.Nodup then .err .MustBeUnique else
     -- `axes.iter().any(|a| new_shape[*a] != 1)`: indexing panics on an axis outside the rank
     (Res.mapM' (fun i => Res.idx a.shape i) ax) >>= fun dims =>
     if dims.any (fun d => d != 1) then .err .SqueezeShapeOfAxisMustBeOne
